@@ -55,6 +55,9 @@ TABLE = [
     ("4-byte UTF-8 ranges are compiled exactly", "C15", "`[\\x{10005}-\\x{FEE20}]` accepted U+10004 (unaligned range descriptors of MC_UTF8)"),
     ("copy-on-write reference before the sibling branch", "C07 C03", "`(?:([ab])-){1,2}(b)` on \"a-b\": group 1 = [2 1], ReplaceAll panicked (named / repeated group shapes of the CAP family)"),
     ("backtracking composite searcher is only used on short inputs", "C05", "`[ab]+[ab]{2,}[a0]+` on 4200 bytes of \"b\": Match + FindIndex took 80 s (cubic; found when the long-input stage of the search checks stopped finishing)"),
+    ("digit runs are only skipped when the leading class", "C19 C02", "`[0-5]+(?:[a-c]|\\.\\d)` on \"65a\": no match (the rest of the digit run was skipped although 6 is outside the class)"),
+    ("reverse-suffix-set Find reports the leftmost match", "C19 C02", "`[a-z]+\\.(txt|log)` on \"a.txt b.log\": FindIndex [6 11] (last suffix candidate kept)"),
+    ("anchored-literal matcher encodes U+0080..U+00FF", "C19 C01", "`^é.*x$` on \"éax\": no match (é stored as the byte 0xE9); `^a.*[à-ÿ]+x$` tested code points as bytes"),
     ("only accepts branches it can match exactly", "C19 C02", "`^([à-ÿ]+|x\\d)` on \"x1\" = [0 1]; `^(foo|bar|baz)` matched \"bax\""),
 ]
 
